@@ -46,7 +46,14 @@ pub fn run(args: &Args) -> Report {
 }
 
 #[cfg(feature = "net")]
+#[path = "c04_ids.rs"]
+mod ids;
+
+#[cfg(feature = "net")]
 pub fn run(args: &Args) -> Report {
+    if args.stage == "ids" {
+        return ids::run(args);
+    }
     imp::run(args)
 }
 
